@@ -7,3 +7,4 @@
 mod stubs;
 mod spec;
 mod c03_framing;
+mod c17_backoff;
